@@ -103,3 +103,12 @@ Definition reported_eigenvalue (op_shift sub_shift lam : Q) : Q := lam + op_shif
    (op_size = dimension of the space the trace-log is taken in: metric_size in signal space, number of data
    points in data space -- not the number of relevant degrees of freedom) *)
 Definition clamp_order (requested op_size : nat) : nat := if Nat.ltb op_size requested then op_size else requested.
+
+(* estimate_evidence_lower_bound (both APIs), number of eigenvalues that enter the trace-log:
+     if compute_all:
+         if verbose: logger.info(...)
+         n_eigenvalues = n_relevant_dofs
+     ... _eigsh raises ValueError if n_eigenvalues > n_relevant_dofs
+   [verbose] only controls logging. *)
+Definition effective_n (compute_all verbose : bool) (n n_rel : nat) : option nat :=
+  if compute_all then Some n_rel else if Nat.ltb n_rel n then None else Some n.
